@@ -289,6 +289,9 @@ def shard(ctx):
             r.count("type_edits", group="parts")
             r.nontrivial.add(h64("edit" + esrc))
             case = {"part": "c", "src": esrc, "expected_row": row, "family": sorted(TYPE_FAMILY)}
+            if len(r.samples) < 2 and v1[0] == "lint_error" and row is not None:
+                r.sample({"edit": "string literal in a numeric position", "edited_row": row, "edited_line": esrc.split("\n")[row - 1][:200] if row <= len(esrc.split("\n")) else "",
+                          "checker_verdict": list(v1), "reported_at": [rep2["lint"]["row"], rep2["lint"]["col"]]})
             if v1[0] == "accepted":
                 r.fail("C12:c:type_edit_accepted", "a string literal in a numeric expression position (row %s) is accepted | program:\n%s" % (row, mark_row(esrc, row)), case)
             elif v1[0] == "lint_error":
